@@ -942,6 +942,14 @@ class Lin:
         self.in_progress.add(key)
         self.depth += 1
         self.analysed_fns.add(b["def"])
+        # a helper that SELECTS among its arguments by the case of an enum (a lookup table of operand pairs): the join over its arms
+        # forgets which argument ends up in which position, so a verdict built on its result is not exact
+        if (b.get("output") or "").startswith("(") and "corgi::array::Array" in (b.get("output") or ""):
+            for n_ in F.walk(self.facts.root(b)):
+                if n_.get("k") == "Match" and not str(n_.get("source", "")).startswith("ForLoopDesugar") and len(n_.get("arms") or []) > 1 \
+                        and all(a_["pat"].get("k") == "Variant" and not (a_["pat"].get("adt") or "").endswith("option::Option") for a_ in n_["arms"]):
+                    self.note("helper %s selects among its arguments by the case of an enum: positions are joined over the arms" % b.get("name"))
+                    break
         try:
             env = _Scope({})
             ps = [p for p in self.facts.params(b) if p.get("pat")]
